@@ -156,9 +156,11 @@ K('plane_is_coplanar', PLN + ':Plane.is_coplanar', [p('pl', PL), p('pl2', PL)], 
 I3 = 'intersection3d'
 for (ka, ta) in [('s', SEG3), ('r', RAY3)]:
     K('intersect_line3d_plane_' + ka, I3 + '.intersect_line3d_plane',
-      [p('l', ta), p('pl', PL)], 'Opt V3', 'Isect3', ['C11'])
+      [p('l', ta), p('pl', PL)], 'Opt V3', 'Isect3', ['C11'],
+      well_conditioned='line_not_parallel_to_plane')
     K('intersect_line3d_plane_infinite_' + ka, I3 + '.intersect_line3d_plane_infinite',
-      [p('l', ta), p('pl', PL)], 'Opt V3', 'Isect3', ['C11'])
+      [p('l', ta), p('pl', PL)], 'Opt V3', 'Isect3', ['C11'],
+      well_conditioned='line_not_parallel_to_plane')
     K('closest_point3d_on_line3d_' + ka, I3 + '.closest_point3d_on_line3d',
       [p('q', P3), p('l', ta)], 'V3', 'Isect3', ['C12'])
     K('closest_point3d_on_line3d_infinite_' + ka, I3 + '.closest_point3d_on_line3d_infinite',
@@ -169,7 +171,7 @@ for (ka, ta) in [('s', SEG3), ('r', RAY3)]:
     K('intersect_line3d_sphere_' + ka, I3 + '.intersect_line3d_sphere',
       [p('l', ta), ('sp', 'SphereS', 'Sphere')], 'PtList V3', 'Isect3', ['C11'])
 K('intersect_plane_plane', I3 + '.intersect_plane_plane', [p('pa', PL), p('pb', PL)],
-  'Opt (Tup V3 V3)', 'Isect3', ['C11'])
+  'Opt (Tup V3 V3)', 'Isect3', ['C11'], well_conditioned='planes_not_parallel')
 K('closest_point3d_on_plane', I3 + '.closest_point3d_on_plane', [p('q', P3), p('pl', PL)],
   'V3', 'Isect3', ['C12'])
 K('intersect_plane_sphere', I3 + '.intersect_plane_sphere',
@@ -257,8 +259,8 @@ K('arc2_max', ARC2 + 'max', [p('a', A2)], 'V2', 'Arc', ['C10'])
 K('arc2_angle_quadrant', ARC2 + '_angle_quadrant', [S('angle', 'arcangle')], 'N', 'Arc',
   ['C10'])
 K('arc2_move', ARC2 + 'move', [p('a', A2), p('mv', W2)], 'Arc2S', 'Arc', ['C02'])
-K('arc2_rotate', ARC2 + 'rotate', [p('a', A2), S('angle', 'angle'), p('o', P2)], 'Arc2S',
-  'Arc', ['C02'], err_as_none=False)
+K('arc2_rotate', ARC2 + 'rotate', [p('a', A2), S('angle', 'angle_generic'), p('o', P2)],
+  'Arc2S', 'Arc', ['C02'])
 K('arc2_scale', ARC2 + 'scale', [p('a', A2), S('factor', 'posfactor'), p('o', P2)], 'Arc2S',
   'Arc', ['C02'])
 K('arc2_point_at', ARC2 + 'point_at', [p('a', A2), S('t', 'unitinterval')], 'V2', 'Arc',
